@@ -17,7 +17,7 @@ from fractions import Fraction
 from types import SimpleNamespace as NS
 
 from vlib import par
-from vlib.session import Session, unjson
+from vlib.session import Session, unjson, chash
 
 PID = "C03"
 RULE = ("generated (caps, cooldown map, op list, cooldown history, turn, delta multiset) cases fed to the real "
@@ -519,6 +519,59 @@ for _c in DIRECTED:
     _c["shape"] = {"plan": "dc", "state": "dict", "ops": "dc", "turnattr": "turn_id"}
 
 
+def overlap_case(rng, sess: Session):
+    """Several callers filter their own plans at the same moment (a thread switch is offered at every statement of the stage):
+    every caller gets the result it gets alone."""
+    import inspect
+    import threading
+    import sys as _sys
+    import clematis.engine.stages.t4 as T4
+    from clematis.engine.stages.t4 import t4_filter
+    from vlib.harness import line_yields
+
+    nt = rng.choice([2, 3, 4])
+    cases = [gen_case(rng, big=(rng.random() < 0.3)) for _ in range(nt)]
+    alone = []
+    for c in cases:
+        ctx, state, plan = build(c)
+        try:
+            alone.append(res_sig(t4_filter(ctx, state, None, None, plan, "utter")))
+        except Exception as ex:
+            alone.append("raises:" + type(ex).__name__)
+    got = [None] * nt
+    barrier = threading.Barrier(nt)
+
+    def w(i):
+        ctx, state, plan = build(cases[i])
+        try:
+            barrier.wait(10)
+            got[i] = res_sig(t4_filter(ctx, state, None, None, plan, "utter"))
+        except Exception as ex:
+            got[i] = "raises:" + type(ex).__name__
+
+    codes = [f.__code__ for f in vars(T4).values() if inspect.isfunction(f) and f.__module__ == T4.__name__]
+    old_si = _sys.getswitchinterval()
+    _sys.setswitchinterval(1e-6)
+    try:
+        with line_yields(codes, prob=0.5, seed=rng.randint(0, 10 ** 6), tool=4, name="verif-c03") as inj:
+            ths = [threading.Thread(target=w, args=(i,)) for i in range(nt)]
+            for t in ths:
+                t.start()
+            for t in ths:
+                t.join(60)
+        sess.count("overlap_yields_injected", inj[0])
+    finally:
+        _sys.setswitchinterval(old_si)
+    sess.evaluations += 1
+    sess.count("overlapping_filter_calls", nt)
+    for i in range(nt):
+        if got[i] != alone[i]:
+            sess.violation("overlapping-calls:result-differs-from-the-call-alone", {"overlap": True, "cases": cases, "caller": i},
+                           {"alone": str(alone[i])[:300], "overlapped": str(got[i])[:300]})
+            return
+    sess.nontrivial.add(chash(("overlap", nt, inj[0])))
+
+
 def _chunk(args):
     tier, seed, idx, n = args
     from vlib import bootstrap
@@ -544,6 +597,12 @@ def _chunk(args):
                 case["caps"]["delta_norm_cap_l2"] = nrm0 * (1.0 - rng.choice([1e-7, 3e-7, 9e-7, 1e-8, 1e-10, 0.0, -1e-9, 2e-6, 1e-3]))
                 sess.count("cases_with_cap_at_the_norm_boundary")
         check_case(case, sess, hist, rng=rng, shared=(shared if (i // 40) % 3 == 1 else None))
+    for _ in range(12 if tier == "quick" else 300):
+        try:
+            overlap_case(rng, sess)
+        except Exception as ex:
+            import traceback
+            sess.inconclusive_because(f"harness error {type(ex).__name__}: {ex} @ {traceback.format_exc()[-400:]}")
     return sess.export()
 
 
@@ -561,13 +620,19 @@ def main(tier: str, seed: int):
     sess.require("permutations_evaluated", 1000)
     sess.require("reference_comparisons", 500)
     sess.require("calls_on_shared_config_object", 100)
+    sess.require("overlapping_filter_calls", 100)
     sess.finish()
 
 
-def replay(body, tier, seed):
+def replay(body, tier, seed):  # (overlapping-call cases are re-explored, not replayed step by step)
     sess = Session(PID, tier, seed, rule=RULE)
     sess.replay_mode = True
     case = unjson(body["case"])
+    if case.get("overlap"):
+        rng = random.Random(0)
+        for _ in range(300):
+            overlap_case(rng, sess)
+        return sess.finish(exit_process=False)
     case["deltas"] = [list(d) for d in case["deltas"]]
     check_case(case, sess, None)
     return sess.finish(exit_process=False)
